@@ -20,7 +20,7 @@ TESTED_ONLY = {
  'C03': ['basis = closure points, d.d = 0, boundary() of chains beyond 4 points (views oracle after every step); shapes, entries and cofaces = inverse of faces are proved for every history'],
  'C04': ['the vertex-set reading of closure / star (subsets, supersets, 2^(k+1)-1 members), sortedness, lookups beyond 4 points; disjoint() beyond 3 points and for 4-tuples; returned names having the Python type they were created with (oracle c04); closure/star duality and no-repeats of the star are proved for every history'],
  'C05': ['continuation after a rejected call behaves as if it had not been made (twin-history oracle); atomicity of addSimplexWithBasis / relabel beyond the cases proved'],
- 'C06': ['betti 0 = number of connected components (union-find oracle); invariance under renaming / insertion order / copies (oracle c06-inv); the boundary operators being those of the stored complex is C03'],
+ 'C06': ['invariance under insertion order / copies / decoding (oracle c06-inv); the boundary operators being those of the stored complex is C03; the rank formula, orders above the maximum, Euler-Poincare, independence of names and betti 0 = number of connected components are proved'],
  'C07': ['boundary() of a returned chain being [] through the public call (oracle c07); count, cycles (on the matrix) and independence are proved'],
  'C08': ['that the *code* does not write through numpy views or shared dictionaries (before/after oracle on every call); heap frames of constructors other than copy'],
  'C09': ['contents and freshness of flagComplex / vietorisRipsComplex / Filtration.copy; follow-up mutation scripts on either side (oracles fresh, same-content, unchanged); names / orders / faces / attribute values of copy() are proved'],
